@@ -48,7 +48,12 @@ class Ob:
         self.canary_timeout = canary_timeout
 
     def cfg(self, tier):
-        return self.thorough if tier == 'thorough' else self.quick
+        c = dict(self.thorough if tier == 'thorough' else self.quick)
+        # global cap per partition (keeps the thorough tier inside ~30 min per property on 16
+        # cores); a partition that does not close in time is reported as bug hunting only
+        cap = float(os.environ.get('VF_MAX_TIMEOUT', '480'))
+        c['timeout'] = min(c['timeout'], cap)
+        return c
 
 
 def _pythonpath(env):
